@@ -19,6 +19,7 @@ def run(ctx: Ctx) -> list[Ob]:
     obs += [o for o in r12b.param_rewrites(ctx) if 'apply_sum_outer_prod_einsum' in o.construct]
     obs += r3.r3k(ctx)
     obs += r11.r11k(ctx)
+    obs += r11.r11m(ctx)
     return obs
 
 
@@ -35,8 +36,9 @@ SPEC = PropSpec(
         "selected by log_space. R7i: every comprehension over <circuit>.layer_inputs(<layer>) that re-wires a copied layer in this operator is an order-preserving total map (no `if` filter, not concatenated, not sorted / reversed / made a set): product layers and sum weights are positional. R4r (symbolic shape interpretation of the operator rules, nothing executed): each integration layer rule, applied to abstract operand layers built by interpreting the symbolic layer constructors on symbolic sizes (every parameterisation: probs / logits, optional log-partition, arity 1..3), composes parameter nodes only with operands of the shapes the nodes were built for, hands the resulting layer parameters of exactly the shape its constructor validates (for all sizes, not only when two sizes coincide) and returns a layer with Ko output units. R12b: the optimiser rule that fuses ReduceSum(OuterProduct(..)) -- the parameter graph integrate(multiply(..)) builds for embedding layers -- into an einsum (+ flatten) returns, for ranks 1..3 and every pair of axes, a tensor of the same shape AND the same element order as the graph it replaces (layout typing: a transposed flattening has the right size and the wrong values)."
         " R3k: every constructor hyper-parameter of a concrete symbolic layer (everything but its params and *_factory alternatives) is a key of its config and round-trips through it -- Layer.copyref(), the copy every operator makes of a layer it does not transform, rebuilds the layer from config (a constant layer that loses log_space is read as linear by the next operator)."
         " R11k: any hand-written exp(x - max(x)) in a torch-side forward makes the shift finite first (an all -inf row is log 0, not nan), as the semiring reductions do."
+        ' R11m: an exponential-family layer whose log_unnormalized_likelihood is a torch.distributions log_prob (already normalised), possibly plus a parameter A of the layer, has log_partition_function equal to that A -- zeros when nothing is added; the textbook log-normaliser (n * softplus(logits) of a Binomial) would be counted twice, on that parameterisation only.'
     ),
     not_decided="the closed forms themselves (numerical), continuous integration, commutation of nested integration.",
     run=run,
-    floors={"R3k": 25, "R12b": 20, "R4r": 6, "R7i": 1, "R2e": 6, "R2a": 6, "R8": 4},
+    floors={"R11m": 3, "R3k": 25, "R12b": 20, "R4r": 6, "R7i": 1, "R2e": 6, "R2a": 6, "R8": 4},
 )
